@@ -114,7 +114,8 @@ impl SimpleCase for ReplHist {
 pub fn gen(rng: &mut Rng, thorough: bool) -> ReplHist {
   let inner = text(rng, 10, true);
   let cfg = GenCfg { max_repl: 1, ..GenCfg::wild(0) };
-  let n = 1 + rng.below(if thorough { 12 } else { 8 });
+  // now and then a long history: more than 20 replacements exercise the sort beyond small-input fast paths
+  let n = if rng.chance(12) { 22 + rng.below(20) } else { 1 + rng.below(if thorough { 12 } else { 8 }) };
   let obs = [Obs::Source, Obs::Map, Obs::Hash, Obs::Size, Obs::Buffer, Obs::Rope, Obs::Writer, Obs::Debug, Obs::Stream];
   let mut steps = vec![]; let mut made: Vec<ReplT> = vec![];
   for _ in 0..n {
